@@ -5,6 +5,9 @@ CONSTANTS NAlpha = 68
  Seed = 0
  Stride = 1
  PairStride = 1
+ TailStride = 1
+ NDir = 8
+ NEnd = 12
  Emit = TRUE
 INVARIANT WellFormed
 CHECK_DEADLOCK FALSE
